@@ -328,18 +328,25 @@ func fixedPrefixPath(pathspec string) string {
 	return pathspec[:varBegin]
 }
 
+// serveMux returns the ServeMux that is currently used ; Remove replaces it.
+func (c *Container) serveMux() *http.ServeMux {
+	c.webServicesLock.RLock()
+	defer c.webServicesLock.RUnlock()
+	return c.ServeMux
+}
+
 // ServeHTTP implements net/http.Handler therefore a Container can be a Handler in a http.Server
 func (c *Container) ServeHTTP(httpWriter http.ResponseWriter, httpRequest *http.Request) {
 	// Skip, if content encoding is disabled
 	if !c.contentEncodingEnabled {
-		c.ServeMux.ServeHTTP(httpWriter, httpRequest)
+		c.serveMux().ServeHTTP(httpWriter, httpRequest)
 		return
 	}
 	// content encoding is enabled
 
 	// Skip, if httpWriter is already an CompressingResponseWriter
 	if _, ok := httpWriter.(*CompressingResponseWriter); ok {
-		c.ServeMux.ServeHTTP(httpWriter, httpRequest)
+		c.serveMux().ServeHTTP(httpWriter, httpRequest)
 		return
 	}
 
@@ -362,7 +369,7 @@ func (c *Container) ServeHTTP(httpWriter http.ResponseWriter, httpRequest *http.
 		}
 	}
 
-	c.ServeMux.ServeHTTP(writer, httpRequest)
+	c.serveMux().ServeHTTP(writer, httpRequest)
 }
 
 // Handle registers the handler for the given pattern. If a handler already exists for pattern, Handle panics.
